@@ -109,6 +109,21 @@ def r08_3_4(prog, rep, direction, c, slot):
         before_loop = not any(e[0] == "loop" for e in p.events)
         if is_none and before_loop and r in (("param", "val"), ("const", None)):
             none_fast = True
+    # ... and only for a union that declares None: elsewhere None is an input like any other (the first member that accepts it
+    # answers, or ValueError)
+    opt_attrs = {a for ip in C.init_attr_paths(prog, c) for a, v in ip["attrs"].items() if v is not None and T.contains(v, lambda x: T.is_call_to(x, f"{C.INSP}.isoptionaltype"))}
+    unconditional = []
+    for p, r in P.returns(ps):
+        gs = p.guards()
+        is_none = any(pol and g[0] == "cmp" and g[1] == "is" and g[2] == ("param", "val") and g[3] == ("const", None) for g, pol in gs)
+        if not (is_none and not any(e[0] == "loop" for e in p.events) and r in (("param", "val"), ("const", None))):
+            continue
+        atoms = T.derive_atoms(gs)
+        declared = any(pol and (T.is_call_to(a, f"{C.INSP}.isoptionaltype") or T.self_attr(a) in opt_attrs) for a, pol in atoms)
+        if not declared:
+            unconditional.append(p)
+    if none_fast:
+        rep.check(not unconditional, "R08.3", c.qualname, f.loc, "the None short-cut is taken only where the union declares None", "None is handed back before the members are asked whether or not the union declares it: for Union[int, str] the first member that accepts None answers ('None'), for Union[int, float] the input is rejected (ValueError) -- the short-cut returns None for both", detail="none-declared")
     orders = {a.position[1] for a in slot.alts if isinstance(a.position, tuple)}
     init = prog.lookup_method(c, "__init__")
     none_first = False
